@@ -1,9 +1,178 @@
 import OdcGeo.Model.C13
 namespace OdcGeo.C13.Drv
-open OdcGeo OdcGeo.IO
+open OdcGeo OdcGeo.IO OdcGeo.C13
+
+/-! Line protocol of the C13 driver.
+
+    value      `n` (NaN) or an integer
+    image      rows separated by `;`, values by `,`      `1,2,n;4,5,6`   (`-` = empty)
+    tile idx   `r.c`
+    deps       `r.c=r.c+r.c|r.c=`   (`-` = empty dict)
+    chunks     `[2,3,1]`
+-/
+
+def parseVal? (s : String) : Option Val :=
+  if s = "n" then some .nan else (parseInt? s).map Val.num
+
+def fmtVal : Val → String
+  | .nan => "n"
+  | .num v => toString v
+
+def parseKind? (s : String) : Option DKind :=
+  if s = "f" then some .float else if s = "i" then some .int else if s = "b" then some .bool else none
+
+def parseVariant? (s : String) : Option Variant :=
+  if s = "fix" then some Variant.repaired
+  else if s = "found" then some Variant.asFound
+  else if s = "f10only" then some ⟨true, false⟩
+  else none
+
+def parseRows? (s : String) : Option (List (List Val)) :=
+  if s = "-" then some [] else (s.splitOn ";").mapM fun r => (r.splitOn ",").mapM parseVal?
+
+def imgOfRows (rows : List (List Val)) : Img := fun p =>
+  if p.1 < 0 ∨ p.2 < 0 then none
+  else match rows[p.1.toNat]? with
+    | none => none
+    | some r => r[p.2.toNat]?
+
+def fmtImg (h w : Int) (img : Img) : String :=
+  let rows := (List.range h.toNat).map fun (y : Nat) =>
+    (List.range w.toNat).map fun (x : Nat) => img ((y : Int), (x : Int))
+  if rows.any (fun r => r.any Option.isNone) then ErrKind.indexError.toStr
+  else if h ≤ 0 ∨ w ≤ 0 then "-"
+  else ";".intercalate (rows.map fun r => ",".intercalate (r.map fun v => match v with
+    | some v => fmtVal v
+    | none => "?"))
+
+def parseTIdx? (s : String) : Option TIdx :=
+  match s.splitOn "." with
+  | [a, b] => match a.toNat?, b.toNat? with
+    | some a, some b => some (a, b)
+    | _, _ => none
+  | _ => none
+
+def parseIdxList? (s : String) : Option (List TIdx) :=
+  if s = "" then some [] else (s.splitOn "+").mapM parseTIdx?
+
+def parseDeps? (s : String) : Option (List (TIdx × List TIdx)) :=
+  if s = "-" then some []
+  else (s.splitOn "|").mapM fun e =>
+    match e.splitOn "=" with
+    | [k, v] => match parseTIdx? k, parseIdxList? v with
+      | some k, some v => some (k, v)
+      | _, _ => none
+    | _ => none
+
+/-- GDAL's collision avoidance for integer working types: a valid value equal to the
+destination nodata is moved by one (up at the type minimum `lo`, else down). -/
+def nudge (lo : Option Int) : Option Val → Val → Val
+  | some (.num n), .num v =>
+    if v = n then
+      match lo with
+      | some l => if v = l then .num (v + 1) else .num (v - 1)
+      | none => .num v
+    else .num v
+  | _, v => v
+
+def fmtSpan (s : Span) : String := s!"{s.1}:{s.2}"
+def fmtTIdx (i : TIdx) : String := s!"{i.1}.{i.2}"
+
+def parseKey? (s : String) : Option Key :=
+  if s.startsWith "s" then (parseTIdx? (s.drop 1).toString).map Key.src
+  else if s.startsWith "d" then (parseTIdx? (s.drop 1).toString).map Key.dst
+  else none
+
+structure Common where
+  c : Cfg
+  G : Gdal
+  src : Img
+
+/-- `<variant> <kind> <lo> <srcNd> <dstNd> <S> <D> <srcH> <srcW> <dstH> <dstW> <sy> <sx> <cy> <cx> <deps> <data>` -/
+def parseCommon? : List String → Option Common
+  | [v, k, lo, sn, dn, S, D, sh, sw, dh, dw, sy, sx, cy, cx, deps, data] => do
+    let v ← parseVariant? v; let k ← parseKind? k; let lo ← parseOpt? parseInt? lo
+    let sn ← parseOpt? parseVal? sn; let dn ← parseOpt? parseVal? dn
+    let S ← parseAff? S; let D ← parseAff? D
+    let sh ← parseInt? sh; let sw ← parseInt? sw; let dh ← parseInt? dh; let dw ← parseInt? dw
+    let sy ← parseList? parseNat? sy; let sx ← parseList? parseNat? sx
+    let cy ← parseNat? cy; let cx ← parseNat? cx
+    let deps ← parseDeps? deps
+    let rows ← parseRows? data
+    if S.det = 0 then none
+    else
+      pure ⟨{ variant := v, kind := k, srcH := sh, srcW := sw, S := S, dstH := dh, dstW := dw, D := D,
+              sy := chunksTiling sy, sx := chunksTiling sx,
+              dy := regularTiling dh.toNat cy, dx := regularTiling dw.toNat cx,
+              deps := deps, srcNd := sn, dstNd := dn }, ⟨nudge lo⟩, imgOfRows rows⟩
+  | _ => none
 
 def run (args : List String) : Option String :=
   match args with
+  | ["fill", k, dn, sn] => do
+    let k ← parseKind? k; let dn ← parseOpt? parseVal? dn; let sn ← parseOpt? parseVal? sn
+    pure (fmtVal (resolveFill dn sn k))
+  | ["xrnd", a, s, d] => do
+    let a ← parseOpt? parseVal? a; let s ← parseOpt? parseVal? s; let d ← parseOpt? parseVal? d
+    let (s', d') := xrNodata a s d
+    pure s!"{fmtOpt fmtVal s'} {fmtOpt fmtVal d'}"
+  | ["tiling", N, n] => do
+    let N ← parseNat? N; let n ← parseNat? n
+    if n = 0 then pure ErrKind.zeroDiv.toStr else pure (fmtList fmtSpan (regularTiling N n))
+  | ["clip", sy, sx, sel] => do
+    let sy ← parseList? parseNat? sy; let sx ← parseList? parseNat? sx
+    let sel ← parseIdxList? sel
+    let r : Option String := do
+      let (y1, y2) ← minMax (sel.map (·.1))
+      let (x1, x2) ← minMax (sel.map (·.2))
+      let (wy, cy) ← clipSpans (chunksTiling sy) y1 y2
+      let (wx, cx) ← clipSpans (chunksTiling sx) x1 x2
+      pure s!"{fmtSpan wy} {fmtSpan wx} {fmtList fmtSpan cy} {fmtList fmtSpan cx} {fmtList fmtTIdx (sel.map fun i => (i.1 - y1, i.2 - x1))}"
+    pure (r.getD (if sel.isEmpty then ErrKind.valueError.toStr else ErrKind.indexError.toStr))
+  | ["asm", k, sn, cy, cx, present, data] => do
+    -- BlockAssembler({idx: block}, chunks).extract(src_nodata, dtype=dtype)
+    let k ← parseKind? k; let sn ← parseOpt? parseVal? sn
+    let cy ← parseList? parseNat? cy; let cx ← parseList? parseNat? cx
+    let present ← parseIdxList? present
+    let rows ← parseRows? data
+    let ty := chunksTiling cy; let tx := chunksTiling cx
+    let h : Int := (cy.foldl (· + ·) 0 : Nat); let w : Int := (cx.foldl (· + ·) 0 : Nat)
+    let r : Option Img := do
+      let blocks ← mapOpt (srcBlock (imgOfRows rows) ty tx) present
+      assemble ty tx (present.zip blocks) (full h w (extractFill sn k))
+    match r with
+    | some img => pure (fmtImg h w img)
+    | none => pure ErrKind.indexError.toStr
+  | "warp" :: rest => do
+    -- `_rio_reproject` on a caller buffer (no NaN default); chunk fields unused
+    let x ← parseCommon? rest
+    let buf := full x.c.dstH x.c.dstW (.num 55)
+    pure (fmtImg x.c.dstH x.c.dstW
+      (rioReprojectPlane x.c.variant x.G x.c.kind x.src x.c.srcH x.c.srcW buf x.c.S x.c.D x.c.srcNd x.c.dstNd))
+  | "numpy" :: rest => do
+    -- `rio_reproject(src, np.empty(...), …)`
+    let x ← parseCommon? rest
+    let buf := full x.c.dstH x.c.dstW (.num 77)
+    pure (fmtImg x.c.dstH x.c.dstW (wholeResult x.c x.G x.src buf))
+  | "dask" :: rest => do
+    -- `_dask_rio_reproject(...).compute()`
+    let x ← parseCommon? rest
+    pure (fmtImg x.c.dstH x.c.dstW (daskResult x.c x.G x.src))
+  | "exec" :: order :: rest => do
+    -- run the task graph in the given order, read the destination blocks back from the store
+    let x ← parseCommon? rest
+    let order ← if order = "-" then some [] else (order.splitOn ",").mapM parseKey?
+    match runOrder (graph x.c x.G x.src) order [] with
+    | none => pure ErrKind.runtimeError.toStr
+    | some st =>
+      let img : Img := fun d => do
+        let iy ← locate x.c.dy d.1
+        let ix ← locate x.c.dx d.2
+        let ty ← x.c.dy[iy]?
+        let tx ← x.c.dx[ix]?
+        let blk ← st.lookup (Key.dst (iy, ix))
+        blk (d.1 - ty.1, d.2 - tx.1)
+      pure (fmtImg x.c.dstH x.c.dstW img)
   | _ => none
 
 end OdcGeo.C13.Drv
